@@ -31,6 +31,8 @@ a.dbl {p:#} {q:#} x:p.11?int y:q.12?int = a.Dbl p q;
 a.useDbl n:# k:# d:(a.dbl n k) = a.UseDbl;
 a.mix {p:#} l:# x:p.13?int y:l.14?int = a.Mix p;
 a.useMix n:# d:(a.mix n) = a.UseMix;
+a.tm {m:#} n:# xs:(a.inner n) = a.Tm m;
+a.useTm k:# t:(a.tm k) = a.UseTm;
 ---functions---
 @read a.get m:# k:m.15?int = a.Rec;
 @read a.getDbl f1:# f2:# = a.Dbl f1 f2;
@@ -79,6 +81,12 @@ var verifUnsafeCases = []verifLintCase{
 	{name: "change-function-argument-type", from: "@read a.simple x:int", to: "@read a.simple x:long"},
 	{name: "change-bare-to-boxed", from: "a.holder p:a.plain", to: "a.holder p:a.Plain"},
 	{name: "change-mask-reference", from: " v:k.12?int = a.Two;", to: " v:n.12?int = a.Two;"},
+	// a reference moved between the FIRST template argument and the FIRST field (and other pairs) of one combinator
+	{name: "change-mask-reference-template-to-first-field", from: " x:p.13?int y:l.14?int = a.Mix p;", to: " x:l.13?int y:l.14?int = a.Mix p;"},
+	{name: "change-mask-reference-first-field-to-template", from: " y:l.14?int = a.Mix p;", to: " y:p.14?int = a.Mix p;"},
+	{name: "change-mask-reference-between-template-arguments", from: " x:p.11?int y:q.12?int = a.Dbl p q;", to: " x:q.11?int y:q.12?int = a.Dbl p q;"},
+	{name: "change-nat-type-argument-source", from: "a.useDbl n:# k:# d:(a.dbl n k) = a.UseDbl;", to: "a.useDbl n:# k:# d:(a.dbl k k) = a.UseDbl;"},
+	{name: "change-nat-type-argument-field-to-template", from: " xs:(a.inner n) = a.Tm m;", to: " xs:(a.inner m) = a.Tm m;"},
 	{name: "change-mask-bit", from: " g:m.14?string", to: " g:m.20?string", accept: 3},
 	{name: "change-mask-bit-in-function", from: " k:m.15?int", to: " k:m.20?int", accept: 4},
 	{name: "remove-mask-from-field", from: " f:m.13?int", to: " f:int"},
